@@ -197,6 +197,12 @@ def run(ctx):
     ctx.cov["disagreements_checked"] = len(cases)
     for i in bad[:3]:
         ctx.violation("correspondence", "save/load model (file key scheme, loaded fields, equality) differs from the implementation", metas[i], False)
+    # the order in which h5py lists the keys of the written file is the alphabetical order the model assumes (C18_load_key_order_independent is about it):
+    # keys (file read back) = keys (h5_sort (save result)), e.g. layer__10 before layer__2
+    bad = ctx.coq_failing("Base SaveLoad SaveLoadRun SaveLoadFull", "", "sl_case", cases,
+                          "fun c => list_eqb String.eqb (keys (sl_file c)) (keys (h5_sort (save (sl_result c))))", "h5order", shard=ctx.budget(15, 30))
+    for i in bad[:3]:
+        ctx.violation("correspondence", "h5py lists the keys of the saved file in another order than the alphabetical order of the model (h5_sort)", metas[i], False)
 
 
 def replay(ctx, obj):
